@@ -5,6 +5,11 @@ from vcommon.coqrun import cZ, clist, copt
 from gen import kernels
 
 
+def site_shape(g):
+    """(columns, rows) counted from the coordinates themselves - not the grid's own `shape` attribute"""
+    return (len(tuple(g.x_positions)), len(tuple(g.y_positions)))
+
+
 class GridTable:
     """canonicalise Python grids by == into small ids (grids are opaque in these models)"""
 
@@ -19,7 +24,7 @@ class GridTable:
         return len(self.items)
 
     def coq(self, g):
-        nx, ny = g.shape
+        nx, ny = site_shape(g)
         return f"(mkgrid {cZ(self.gid(g))} {cZ(nx)} {cZ(ny)})"
 
     def show(self, g):
@@ -181,7 +186,7 @@ def ref_trace(ops):
         elif pos is None:
             return None
         elif o[0] == "move":
-            if pos.shape != o[1].shape:
+            if site_shape(pos) != site_shape(o[1]):
                 return None
             seg = seg + [o[1]]
             pos = o[1]
@@ -233,7 +238,7 @@ def wf_py(apath):
         if a[0] == "W":
             if not a[1]:
                 return f"empty segment at {i}"
-            if any(g.shape != a[1][0].shape for g in a[1]):
+            if any(site_shape(g) != site_shape(a[1][0]) for g in a[1]):
                 return f"segment {i} mixes shapes"
         elif a[0] == "S":
             if i == 0 or i + 1 >= len(apath) or apath[i - 1][0] != "W" or apath[i + 1][0] != "W":
